@@ -48,7 +48,7 @@ def plan(tier, seed):
 
 
 def mandatory(tier):
-    return [f"mode/{m}" for m in FD_MODES + ["bspline"]] + [f"spacing/{s}" for s in SPACING_FORMS] + ["D/2", "D/3", "subset", "quadratic", "bracket", "curl", "curl/divergence_free_flow", "curl/divergence_free_flow/scalar_fields", "curl/module", "curl/data_classes", "curl/data_classes/per_item_grids"]
+    return [f"mode/{m}" for m in FD_MODES + ["bspline"]] + [f"spacing/{s}" for s in SPACING_FORMS] + ["D/2", "D/3", "subset", "quadratic", "bracket", "curl", "curl/divergence_free_flow", "curl/divergence_free_flow/scalar_fields", "curl/module", "curl/data_classes", "curl/data_classes/per_item_grids", "derivs/unsorted_keys"]
 
 
 def interior(a, m=2):
@@ -295,6 +295,16 @@ def run_item(ctx, item):
             if tuple(got[key].shape[2:]) == out_shape:
                 ctx.close("bspline_derivative_vs_analytic", got[key], ref / denom, 5e-7 * (1 + np.abs(ref / denom).max()),  # spacing powers are float32 inside the API
                            key="bspline/derivative", entry=key, **info)
+        # a mixed derivative requested with its axes in the other order comes back under the key that was requested, with
+        # the same values (mixed derivatives are symmetric), in the spline mode as in the finite-difference modes
+        for md in ("bspline", "central"):
+            kws = dict(stride=stride) if md == "bspline" else {}
+            un = spatial_derivatives(ct, which=["yx", "x"], mode=md, spacing=arg, **kws)
+            so = spatial_derivatives(ct, which=["xy", "x"], mode=md, spacing=arg, **kws)
+            ok_keys = ctx.true("requested_key_order_is_returned", sorted(un.keys()) == ["x", "yx"], key=f"derivs/keys/unsorted/{md}", got=sorted(un.keys()), mode=md)
+            if ok_keys:
+                ctx.close("unsorted_mixed_key_equals_sorted", un["yx"], so["xy"], 0.0, key=f"derivs/keys/unsorted/{md}", mode=md)
+        ctx.bucket("derivs/unsorted_keys")
         fd = U.flow_derivatives(ct, which=["du/dx", "dv/dy", "du/dxy"], mode="bspline", spacing=arg, stride=stride)
         for key, (c, skey) in {"du/dx": (0, "x"), "dv/dy": (1, "y"), "du/dxy": (0, "xy")}.items():
             ctx.close("flow_derivatives_bspline_is_component_derivative", fd[key], got[skey][:, c : c + 1], 1e-12 * (1 + float(got[skey].abs().max())), key="bspline/flow_derivatives", entry=key, **info)
